@@ -34,6 +34,7 @@ func c08(r *Report) {
 	c08SameTxHandle(r, wcl, us)
 	da := p.Func(dag, "dag", "add")
 	r.Gate(Gate{ID: "C08.graph.highest-clock", Fn: da, Effect: SuccessReturn(), Check: ErrCheck(Fn(dag, "dag", "setHighestClockValue"))})
+	r.ArgIs("C08.graph.counter-is-stored-plus-added", da, Fn(dag, "dag", "setNumberOfTransactions"), 1, SumV(CallV(Fn(dag, "dag", "getNumberOfTransactions"), -1), LenV(ParamV("transactions"))), 1)
 	r.Gate(Gate{ID: "C08.graph.counter", Fn: da, Effect: SuccessReturn(), Check: ErrCheck(Fn(dag, "dag", "setNumberOfTransactions"))})
 	r.Gate(Gate{ID: "C08.graph.head", Fn: da, Effect: SuccessReturn(), Check: ErrCheck(Fn(dag, "dag", "setHead")), Alt: []Check{CallCheck(Fn("crypto/hash", "SHA256Hash", "Equals"), -1, IsTrue)}})
 	r.Gate(Gate{ID: "C08.graph.each-stored", Fn: da, Effect: CallEffect(Fn(dag, "dag", "setNumberOfTransactions")), ForEach: true, Check: ErrCheck(Fn(dag, "dag", "addSingle")),
@@ -165,6 +166,14 @@ func c08LoadState(r *Report) {
 		// a raise-only update (CompareAndSwap loop / conditional) instead of Store would keep a rolled-back clock
 		if len(Calls(f, Fn("std:sync/atomic", "Uint32", "CompareAndSwap"))) > 0 {
 			problems = append(problems, "loadState uses CompareAndSwap (raise-only) on the clock")
+		}
+	}
+	// the Store is unconditional: it is in the entry block of the read closure
+	for _, f := range WithAnons(ls) {
+		for _, ci := range Calls(f, Fn("std:sync/atomic", "Uint32", "Store")) {
+			if ci.Block() != f.Blocks[0] {
+				problems = append(problems, "the Store at "+p.Pos(ci.Pos())+" is conditional (a rolled-back, higher in-memory clock would be kept)")
+			}
 		}
 	}
 	r.Sites += stores + reads
